@@ -292,7 +292,9 @@ func goTarget(g *ssa.Go) *ssa.Function {
 	return g.Call.StaticCallee()
 }
 
-// closureFn returns the function behind a MakeClosure or plain function value.
+// ClosureFn returns the function behind a MakeClosure or plain function value.
+func ClosureFn(v ssa.Value) *ssa.Function { return closureFn(v) }
+
 func closureFn(v ssa.Value) *ssa.Function {
 	switch x := v.(type) {
 	case *ssa.MakeClosure:
